@@ -23,8 +23,8 @@ WIDTH_BITS = {"BitLength8": 8, "BitLength16": 16, "BitLength32": 32, "BitLength6
 _cache = {}
 
 
-def rdsym(off, w, order="T"):
-    return "rd[input@%s:%d:%s]" % (off, w, order if w > 1 else "1")
+def rdsym(off, w, order="T", signed=False):
+    return "%s[input@%s:%d:%s]" % ("rds" if signed else "rd", off, w, order if w > 1 else "1")
 
 
 def analysis(ctx):
@@ -169,7 +169,7 @@ def check(ctx, rule="WIRE-PA"):
                     on, ofs = one(eng, FP.get("offset"))
                     ow = {"I32": 4, "I64": 8}.get(on)
                     dw = INT_W.get(vname)
-                    if ow is None or not isinstance(ofs[0], Int) or ofs[0].lin != Lin.sym(rdsym(o.add(4), ow)):
+                    if ow is None or not isinstance(ofs[0], Int) or ofs[0].lin != Lin.sym(rdsym(o.add(4), ow, signed=True)):
                         why.append("fixed-point offset is %s(%s), the layout puts it at %s" % (on, getattr(ofs[0], "lin", "?") if ofs else "?", o.add(4)))
                     elif dw is not None and ow != dw:
                         why.append("fixed-point offset has %d bytes for %d-byte data (32-bit data carries an i32 offset, 64-bit data an i64 offset)" % (ow, dw))
@@ -193,7 +193,7 @@ def check(ctx, rule="WIRE-PA"):
             else:
                 w = INT_W.get(vname)
                 v0 = vfs[0] if vfs else None
-                want = rdsym(o, w) if w else None
+                want = rdsym(o, w, signed=vname.startswith("I")) if w else None
                 if w is None:
                     why.append("unknown value variant %s" % vname)
                 elif isinstance(v0, Int):
